@@ -260,7 +260,13 @@ func parseTildeConstraint(version string) ([]*constraint, error) {
 
 	// ~1.2.3 means >=1.2.3 <1.3.0
 	// ~1.2 means >=1.2.0 <2.0.0
-	parts := strings.Split(version, ".")
+	// only the numeric components count: a stability suffix may contain dots of its own
+	// (~1.2-beta.1 is a two-component base, like ~1.2)
+	core := strings.TrimLeft(strings.TrimSpace(version), "vV")
+	if i := strings.IndexFunc(core, func(r rune) bool { return r != '.' && (r < '0' || r > '9') }); i >= 0 {
+		core = core[:i]
+	}
+	parts := strings.Split(strings.TrimRight(core, "."), ".")
 	switch len(parts) {
 	case 1:
 		// ~1 means >=1.0.0 <2.0.0
